@@ -449,6 +449,11 @@ def guard(F, R):
                 if not sets:
                     why = 'the command read is not handed to Parameter::set'
         R.check(not why, 'B.C07.guard', 'Parameter::read_command', why or '', detail='read() is Some => self.set(target, tween) on every path', where=pb.file)
+    # a command that was written stays written: neither end of the channel does anything when it is dropped (a writer that
+    # retracts its pending command on drop loses `play(..)?.set_volume(..)` and `sound.stop(t); drop(sound)`)
+    dr = [im['self_ty'] for im in F.impls if im['trait'] == 'std::ops::Drop' and (im['self_ty'] or '').startswith(('command::CommandWriter', 'command::CommandReader'))]
+    R.check(not dr, 'B.C07.guard', 'no-drop', 'Drop is implemented for %s: dropping a handle can take back a command that was already issued' % dr,
+            detail='CommandWriter / CommandReader have no Drop impl')
     b = F.body('command::CommandReader::<T>::read')
     if not R.check(b is not None, 'B.C07.guard', 'anchor', 'CommandReader::read not found'):
         return
